@@ -931,13 +931,19 @@ def id_rule(F, rule_id, file_res, floor=1):
 	tab = id_table()
 	out = []
 	n = 0
-	for fl, tail, ty in sorted(tuple(x) for x in tab['pairs']):
+	for row in sorted(tuple(x) for x in tab['pairs']):
+		fl, tail, ty = row[:3]
+		want = row[3] if len(row) > 3 else 1
 		if not any(re.search(p, fl.replace(':', '/src/')) for p in file_res):
 			continue
 		if tail not in known.get(fl, ()):
 			continue   # the function is gone (renamed / removed): not judged
 		n += 1
-		if cnt.get((fl, tail, ty), 0) == 0:
+		have = cnt.get((fl, tail, ty), 0)
+		if 0 < have < want:
+			fn, line = where[(fl, tail, ty)]
+			out.append(Result(rule_id, False, 'identity-fewer:%s:%s' % (tail, ty), '%s compares two %s values with == / != %d time(s) (reviewed: %d): one of the places where it matched by that identity (the same HTLC, transaction, channel, peer, payment) now matches by something else' % (tail, ty, have, want), 1, where=F.where(fn, line)))
+		if have == 0:
 			fns = [x for x in F.fns if root_fn(x).rsplit('::', 1)[-1] == tail and F.fns[x]['file'].endswith(fl.split(':', 1)[1])]
 			out.append(Result(rule_id, False, 'identity:%s:%s' % (tail, ty), '%s no longer compares two %s values with == / != (reviewed: it did): what it matched by that identity (the same HTLC, transaction, channel, peer, payment) is now matched by something else or not at all' % (tail, ty), 1, where=F.where(fns[0]) if fns else fl))
 	if n < floor:
